@@ -780,6 +780,69 @@ def _o_amount_traps(w):
     return plain == trapped and plain[1] != "foreign", f"{w['fn']}({x!r}): default context {plain}, Inexact/Rounded trapped {trapped}"
 
 
+_CTX_CASES = [
+    ("valid_btc_amount", "0.123456789", False), ("valid_btc_amount", "0.12345678", False), ("valid_btc_amount", "21000000", False),
+    ("valid_btc_amount", "1E+7", False), ("valid_btc_amount", "2.1E+7", False), ("valid_btc_amount", "2.10000001E+7", False),
+    ("sats_from_btc", "1", False), ("sats_from_btc", "0.5", False), ("sats_from_btc", "1.000000001", True),
+    ("sats_from_btc", "20999999.99999999", False), ("sats_from_btc", "0.00000001", False), ("sats_from_btc", "1e-8", True),
+    ("sats_from_btc", "1e-9", False), ("sats_from_btc", "0e-400", False), ("sats_from_btc", "1e400", False),
+    ("sats_from_btc", "-0", False), ("sats_from_btc", "NaN", False), ("sats_from_btc", "abc", False),
+    ("btc_from_sats", 0, False), ("btc_from_sats", 1, False), ("btc_from_sats", 123456789, False),
+    ("btc_from_sats", 2099999999999999, False), ("btc_from_sats", 2100000000000000, False), ("btc_from_sats", 10**10, False),
+    ("btc_from_sats", 2100000000000001, False),
+    ("from_sats_per_vbyte", "1.5", False), ("from_sats_per_vbyte", "1.0004", False), ("from_sats_per_vbyte", "0.001", True),
+    ("from_sats_per_vbyte", "9999999999999999.999", False), ("from_sats_per_vbyte", "1e16", False),
+    ("from_sats_per_vbyte", "1.00000000000000000000000000001", False), ("from_sats_per_vbyte", "1e-400", False),
+    ("from_btc_per_kvbyte", "0.000123456", False), ("from_btc_per_kvbyte", "0.00012345", False),
+    ("sats_per_vbyte", 0, False), ("sats_per_vbyte", 1, False), ("sats_per_vbyte", 1500, False),
+    ("sats_per_vbyte", 1234567891, False), ("sats_per_vbyte", 10**18 + 1, False), ("sats_per_vbyte", 10**30 + 1, False),
+]
+_CTX_SIGNALS = ["Clamped", "DivisionByZero", "Inexact", "Overflow", "Rounded", "Subnormal", "Underflow", "FloatOperation",
+                "InvalidOperation"]
+_CTX_ROUNDINGS = ["ROUND_CEILING", "ROUND_DOWN", "ROUND_FLOOR", "ROUND_HALF_DOWN", "ROUND_HALF_EVEN", "ROUND_HALF_UP",
+                  "ROUND_UP", "ROUND_05UP"]
+
+
+def _rand_context(rng):
+    """every field of decimal.Context a caller may have set"""
+    return {"prec": rng.choice([1, 2, 3, 6, 8, 9, 15, 16, 17, 28, 50]),
+            "Emax": rng.choice([0, 1, 5, 7, 8, 15, 16, 20, 999999, 999999999999999999]),
+            "Emin": rng.choice([0, -1, -5, -7, -8, -9, -20, -999999, -999999999999999999]),
+            "capitals": rng.choice([0, 1]), "clamp": rng.choice([0, 1]),
+            "rounding": rng.choice(_CTX_ROUNDINGS),
+            "traps": sorted(sg for sg in _CTX_SIGNALS if rng.random() < 0.4)}
+
+
+def _o_amount_anycontext(w):
+    """the conversions read NO field of the caller's decimal context: precision, Emax/Emin, clamp, capitals, rounding
+    and traps may be anything, the answer (exact value and representation, or the library's refusal) is the one
+    given under the default context."""
+    import decimal
+    fn = {"valid_btc_amount": __import__("btclib.amount", fromlist=["x"]).valid_btc_amount, "sats_from_btc": sats_from_btc,
+          "btc_from_sats": btc_from_sats, "from_sats_per_vbyte": lambda x: FeeRate.from_sats_per_vbyte(x).sats_per_kvbyte,
+          "from_btc_per_kvbyte": lambda x: FeeRate.from_btc_per_kvbyte(x).sats_per_kvbyte,
+          "sats_per_vbyte": lambda k: _rate(k).sats_per_vbyte}[w["fn"]]
+    x = Decimal(w["x"]) if w.get("decimal") else w["x"]
+
+    def run():
+        try:
+            v = fn(x)
+        except Exception as e:  # noqa: BLE001
+            return ("err", common.err_class(e))
+        return ("ok", tuple(v.as_tuple()) if isinstance(v, Decimal) else v)
+    plain = run()
+    c = w["ctx"]
+    caller = decimal.Context(prec=c["prec"], Emax=c["Emax"], Emin=c["Emin"], capitals=c["capitals"], clamp=c["clamp"],
+                             rounding=getattr(decimal, c["rounding"]), traps=[getattr(decimal, t) for t in c["traps"]])
+    with localcontext(caller) as live:
+        theirs = run()
+        untouched = (live.prec, live.Emax, live.Emin, live.capitals, live.clamp, live.rounding,
+                     sorted(k.__name__ for k, v in live.traps.items() if v)) == (
+                     c["prec"], c["Emax"], c["Emin"], c["capitals"], c["clamp"], c["rounding"], sorted(c["traps"]))
+    ok = plain == theirs and not str(plain[1]).startswith("foreign") and untouched
+    return ok, f"{w['fn']}({x!r}): default context {plain}, caller's context {c} -> {theirs}, caller's context untouched: {untouched}"
+
+
 def _o_feerate_context(w):
     k, prec = w["k"], w["prec"]
     if "x" in w:
@@ -808,6 +871,7 @@ ORACLES = {
     "amount.glue": _o_amount_glue,
     "amount.context": _o_amount_context,
     "amount.traps": _o_amount_traps,
+    "amount.anycontext": _o_amount_anycontext,
     "feerate.units": _o_feerate_units,
     "feerate.context": _o_feerate_context,
     "feerate.bounded_time": _o_bounded_time,
@@ -1040,6 +1104,26 @@ def _run_amount(ctx):
         ctx.check("amount.spelling", {"x": x})
         ctx.check("feerate.units", {"x": x})
     ctx.check("feerate.bounded_time", {"x": "1e999999999"}, key="feerate.huge-exponent")
+    # every field of the caller's decimal.Context varied at once (Emax/Emin, clamp, capitals, rounding, prec, traps)
+    edge_ctx = {"prec": 28, "Emax": 5, "Emin": -999999, "capitals": 1, "clamp": 0, "rounding": "ROUND_HALF_EVEN",
+                "traps": ["DivisionByZero", "InvalidOperation", "Overflow"]}
+    for fn, x, dec in _CTX_CASES:
+        for cx in (edge_ctx, dict(edge_ctx, Emax=999999, Emin=-5, traps=["Subnormal", "Underflow", "Clamped"]),
+                   dict(edge_ctx, Emax=0, Emin=0, clamp=1, capitals=0, rounding="ROUND_UP")):
+            ctx.check("amount.anycontext", {"fn": fn, "x": x, "decimal": dec, "ctx": cx}, key="amount.context-emax")
+    for _ in range(ctx.n(600, 12000)):
+        fn, x, dec = rng.choice(_CTX_CASES)
+        if fn == "btc_from_sats" and rng.random() < 0.5:
+            x = rng.randrange(0, MAX_SATS + 1)
+        elif fn == "sats_per_vbyte" and rng.random() < 0.5:
+            x = G._nat(rng, 60)
+        elif fn == "sats_from_btc" and rng.random() < 0.5:
+            d = _rand_dec(rng, 8)
+            x, dec = str(d), rng.random() < 0.5 and d.is_finite()
+        elif fn == "from_sats_per_vbyte" and rng.random() < 0.5:
+            x = str(_rand_dec(rng, 3))
+        ctx.check("amount.anycontext", {"fn": fn, "x": x, "decimal": bool(dec), "ctx": _rand_context(rng)},
+                  key="amount.context-emax")
     for fn, x, dec in (("valid_btc_amount", "0.123456789", False), ("sats_from_btc", "1.000000001", True),
                        ("sats_from_btc", "0.5", False), ("sats_from_btc", "20999999.99999999", False),
                        ("btc_from_sats", 123456789, False), ("btc_from_sats", 2099999999999999, False),
